@@ -106,7 +106,7 @@ struct SessionsModel : Monitor {
 		step.from_bound = same_ip(d.src, s.bound);
 		step.foreign = !no_check_ip && !step.from_bound;
 		step.t_hi_before = s.t_hi;
-		if ((no_check_ip || step.from_bound) && (u.cmd == 'l' || u.cmd == 'p' || u.cmd == 'd')) s.t_hi = w->S.now;
+		if ((no_check_ip || step.from_bound) && strchr("lpdisorn", u.cmd)) s.t_hi = w->S.now;     // any request of the session from its own address may count as a sign of life
 		if (u.cmd == 'l') {
 			uint8_t h[16]; ref_login(w->password, s.seed, h);
 			if (u.b32.size() >= 18 && !memcmp(&u.b32[1], h, 16) && (no_check_ip || step.from_bound)) { step.valid_login = true; step.authorised = true; }
@@ -272,11 +272,14 @@ struct SessionsModel : Monitor {
 			return;
 		}
 		bool refused = ps == "BADIP" || ps == "BADLEN" || ps == "BADCODEC" || ps == "BADFRAG" || ps == "LNAK";
-		if (u.cmd == 'i') { if (!refused && pl.size() >= 5 && pl[0] == 'I') { w->probes["c03.ip_disclosed"]++; require_auth("address_disclosure"); } return; }
-		if (u.cmd == 's') { if (!refused && codec_from_name(ps)) { w->probes["c03.codec_switched"]++; require_auth("codec_switch"); } return; }
-		if (u.cmd == 'o') { if (!refused && (ps == "Base32" || ps == "Base64" || ps == "Base64u" || ps == "Base128" || ps == "Raw" || ps == "Lazy" || ps == "Immediate")) { w->probes["c03.option_set"]++; require_auth("option_change"); } return; }
-		if (u.cmd == 'n') { if (!refused && pl.size() == 2) { w->probes["c03.fragsize_set"]++; require_auth("fragsize_change"); } return; }
-		if (u.cmd == 'r') { if (!refused && pl.size() >= 2) require_auth("fragsize_probe_reply"); return; }
+		// an accepted handshake request (address, codec, option, probe, fragment size) of a logged-in session from its own address is a
+		// sign of life like a ping: the minute between login and the first ping is spent on exactly these
+		auto alive = [&]() { if (step.n == 1 && step.authorised && step.uid == u.userid && (no_check_ip || step.from_bound)) { auto it2 = slot.find(u.userid); if (it2 != slot.end() && it2->second.logged_in && it2->second.t_lo && w->S.now - it2->second.t_lo < 57ull * 1000000) { it2->second.t_lo = w->S.now; w->probes["c04.handshake_activity"]++; } } };
+		if (u.cmd == 'i') { if (!refused && pl.size() >= 5 && pl[0] == 'I') { w->probes["c03.ip_disclosed"]++; require_auth("address_disclosure"); alive(); } return; }
+		if (u.cmd == 's') { if (!refused && codec_from_name(ps)) { w->probes["c03.codec_switched"]++; require_auth("codec_switch"); alive(); } return; }
+		if (u.cmd == 'o') { if (!refused && (ps == "Base32" || ps == "Base64" || ps == "Base64u" || ps == "Base128" || ps == "Raw" || ps == "Lazy" || ps == "Immediate")) { w->probes["c03.option_set"]++; require_auth("option_change"); alive(); } return; }
+		if (u.cmd == 'n') { if (!refused && pl.size() == 2) { w->probes["c03.fragsize_set"]++; require_auth("fragsize_change"); alive(); } return; }
+		if (u.cmd == 'r') { if (!refused && pl.size() >= 2) { require_auth("fragsize_probe_reply"); alive(); } return; }
 		if (u.cmd == 'p' || u.cmd == 'd') {
 			if (refused || (pl.size() == 1 && pl[0] == 'x')) {
 				if (ps == "BADIP") w->probes["c04.badip"]++;
@@ -762,6 +765,22 @@ J gen_sessions(uint64_t seed, const J &ov)
 			t2.set("len", (int)r.range(40, 400)); t2.set("body", "rnd"); t2.set("src", "ext"); t2.set("dst", m.gets("name"));
 			ops.push(t2);
 		}
+	}
+	// a session that spends more than a minute after its login on handshake requests only (a slow or picky path: codec tests, option
+	// switches, fragment size probes), each one accepted and answered - and somebody asking for a slot meanwhile
+	if (!ffrag && !fpool && r.chance(0.3)) {
+		J k = J::obj(); k.set("name", "g0"); k.set("ip", "10.9.7.1"); k.set("auto", false);
+		models.push(k); cfg.set("models", models);
+		double tk = 3 + r.uniform() * std::max(1.0, T - 90);
+		{ J op = J::obj(); op.set("ref", "abs"); op.set("t", (long long)(tk * 1e6)); op.set("op", "mc"); op.set("who", "g0"); op.set("act", "v"); ops.push(op); }
+		{ J op = J::obj(); op.set("ref", "abs"); op.set("t", (long long)((tk + 0.5) * 1e6)); op.set("op", "mc"); op.set("who", "g0"); op.set("act", "l"); op.set("mode", "good"); ops.push(op); }
+		static const char *hs[] = {"n", "s", "o", "r", "i"};
+		for (double tt = tk + 2; tt < tk + 75 && tt < T - 2; tt += 2 + r.uniform() * 6) {
+			J op = J::obj(); op.set("ref", "abs"); op.set("t", (long long)(tt * 1e6)); op.set("op", "mc"); op.set("who", "g0"); op.set("act", hs[r.range(0, 4)]);
+			op.set("f", (int)r.range(50, 1200)); op.set("bits", 5); op.set("opt", "t");
+			ops.push(op);
+		}
+		for (int j = 0; j < 2; j++) { J op = J::obj(); op.set("ref", "abs"); op.set("t", (long long)((tk + 61.5 + r.uniform() * 10) * 1e6)); op.set("op", "mc"); op.set("who", "a" + std::to_string(r.range(0, na - 1))); op.set("act", "v"); ops.push(op); }
 	}
 	// a raw login repeated after its session has expired (a late duplicate, or a replay of the captured datagram): the hash is still
 	// the right one for the slot's challenge, but the session is dead
